@@ -63,6 +63,10 @@ if t_elem.is_leaf():
 """
 
 
+_KEEP_COPY = "set() if keep_symbols is None else set(keep_symbols)"
+_KEEP_ALIAS = "set() if keep_symbols is None else keep_symbols"
+
+
 def _dump(stmts):
     return ast.dump(ast.Module(body=list(stmts), type_ignores=[]))
 
@@ -134,13 +138,31 @@ def gen_consts(repo):
           and n.test.comparators[0].attr == "prod_templates"]
     if len(tm) != 1 or tm[0] > idx_leaf:
         raise ExtractError("_cleanup: template dispatch not found before the is_leaf() test")
+    # StdCleanuper.make: the keep_symbols set of the cleanuper is a private copy of the caller's set
+    mk = _find_method(_find_class(tree, "StdCleanuper"), "make")
+    asg = [n for n in mk.body if isinstance(n, ast.Assign) and len(n.targets) == 1 and isinstance(n.targets[0], ast.Name)
+           and n.targets[0].id == "keep_symbols"]
+    if len(asg) != 1:
+        raise ExtractError("StdCleanuper.make: expected exactly one assignment to keep_symbols")
+    d = ast.dump(asg[0].value)
+    if d == ast.dump(ast.parse(_KEEP_COPY, mode="eval").body):
+        keep_copied = True
+    elif d == ast.dump(ast.parse(_KEEP_ALIAS, mode="eval").body):
+        keep_copied = False
+    else:
+        raise ExtractError("StdCleanuper.make: unrecognised initialisation of keep_symbols")
+    others = [n for n in ast.walk(mk) if isinstance(n, ast.Call) and isinstance(n.func, ast.Attribute)
+              and isinstance(n.func.value, ast.Name) and n.func.value.id == "keep_symbols"]
+    if [ast.dump(n) for n in others] != [ast.dump(ast.parse("keep_symbols.add(llparser.start_symbol_name)", mode="eval").body)]:
+        raise ExtractError("StdCleanuper.make: keep_symbols is changed by something else than .add(llparser.start_symbol_name)")
     text = ("(* generated from ak/llparser.py by harness/props/c05.py -- do not edit *)\n"
             "From Coq Require Import ZArith List.\nImport ListNotations.\n"
             f"Definition sfx_tail : list Z := {SX.cstr(sfx_tail)}.\n"
             f"Definition sfx_kv_pair : list Z := {SX.cstr(sfx_pair)}.\n"
             f"Definition sfx_kv_tail : list Z := {SX.cstr(sfx_kvtail)}.\n"
             f"Definition sfx_element : list Z := {SX.cstr(sfx_elem)}.\n"
-            f"Definition seq_cleaned : bool := {SX.cbool(seq_cleaned)}.\n")
+            f"Definition seq_cleaned : bool := {SX.cbool(seq_cleaned)}.\n"
+            f"Definition keep_copied : bool := {SX.cbool(keep_copied)}.\n")
     return {"C05_Consts": text}
 
 
@@ -666,12 +688,145 @@ def gen_cases(rng, tier):
             c = make_case(rng, g, reject=True)
             if c:
                 cases.append(c)
-    return cases
+    for c in cases:
+        if "g" in c:
+            c["g"].pop("_p", None)
+    return cases + hist_cases(rng, tier)
+
+
+# ---- histories: one parser object, several calls ---------------------------------------------------------------
+def nonterminals(g):
+    return [n for n, _ in g["prods"]]
+
+
+def sub_text(rng, g, sym, max_depth=3, max_len=4):
+    """a text derived from the symbol `sym` of the grammar -> (d, text) or None"""
+    for _ in range(10):
+        dv = Deriver(rng, g, max_depth, max_len)
+        try:
+            d, toks = dv.derive(sym, max_depth, no_absent=True)
+        except (ValueError, IndexError):
+            continue
+        finally:
+            g.pop("_p", None)
+        return d, render(rng, toks, messy=rng.random() < 0.5)
+    return None
+
+
+def make_history(rng, g, second=None):
+    """one parser object of grammar g; the main text is parsed at the beginning, in the middle and at the end, with calls
+    that give per-call arguments (start_symbol_name, do_cleanup) or fail in between.  second = None | "keep" (a second
+    parser object with the same keep_symbols set object) | "copy" (equal but separate set) | "tmpl" (a second parser
+    is constructed from the SAME template objects)"""
+    main = make_case(rng, g, max_depth=rng.choice([2, 3, 3, 4]), max_len=4)
+    if not main:
+        return None
+    g.pop("_p", None)
+    gg = main["g"]
+
+    def default_call(c, clean=True, p=0):
+        return {"op": "parse", "p": p, "text": c["text"], "start": None, "clean": clean, "d": c["d"], "expect": c["expect"]}
+
+    def sym_call(sym, p=0, clean=True):
+        r = sub_text(rng, g, sym)
+        if r is None:
+            return None
+        return {"op": "parse", "p": p, "text": r[1], "start": sym, "clean": clean, "d": r[0], "expect": "any"}
+
+    nts = nonterminals(g)
+    # the symbols a leak hurts most come first: item / value symbols of the templates, then the containers
+    items = []
+    for n, sp in g["prods"]:
+        if sp["t"] == "list":
+            items.append(sp["item"])
+        elif sp["t"] == "map":
+            items += [sp["val"], sp["key"]]
+        elif sp["t"] == "seq":
+            items += sp["syms"]
+    items = [x for x in dict.fromkeys(items) if x in nts]
+    conts = [n for n, sp in g["prods"] if sp["t"] != "plain"]
+
+    def pick_sym():
+        r = rng.random()
+        pool = items if (r < 0.5 and items) else conts if (r < 0.75 and conts) else nts
+        return rng.choice(pool)
+
+    steps = []
+    first = rng.random()
+    if first < 0.55:
+        steps.append(default_call(main))
+    n_mid = rng.randint(2, 4)
+    start2 = None
+    for i in range(n_mid):
+        r = rng.random()
+        if r < 0.5:
+            c = sym_call(pick_sym(), clean=rng.choice([True, True, True, "two", False]))
+        elif r < 0.65:
+            o = make_case(rng, g, max_depth=2, max_len=3)
+            c = default_call(o, clean=rng.choice([True, "two", False])) if o else None
+        elif r < 0.75:
+            o = make_case(rng, g, reject=True, max_depth=2, max_len=3)
+            c = default_call(o) if o else None
+        elif r < 0.85:
+            c = default_call(main, clean=False)
+        else:
+            c = {"op": "parse", "p": 0, "text": main["text"], "start": g["start"], "clean": True, "d": main["d"], "expect": "ok"}
+        g.pop("_p", None)
+        if c:
+            steps.append(c)
+        if second and start2 is None and (i == 0 or rng.random() < 0.5):
+            if second == "tmpl":
+                steps.append({"op": "ctor2", "how": "tmpl", "start": g["start"]})
+                start2 = g["start"]
+            else:
+                start2 = pick_sym() if rng.random() < 0.8 else g["start"]
+                steps.append({"op": "ctor2", "how": second, "start": start2})
+                for _ in range(rng.randint(1, 2)):
+                    c2 = sym_call(start2, p=1)
+                    if c2:
+                        c2["start"] = None if rng.random() < 0.7 else start2
+                        steps.append(c2)
+        if rng.random() < 0.35:
+            steps.append(default_call(main, clean=rng.choice([True, True, "two"])))
+    steps.append(default_call(main))
+    if second in ("keep", "copy") and start2 is not None:
+        c2 = sym_call(start2, p=1)
+        if c2:
+            c2["start"] = None
+            steps.append(c2)
+    other = make_case(rng, g, max_depth=3, max_len=4)
+    g.pop("_p", None)
+    if other:
+        steps.append(default_call(other))
+    return {"k": "hist", "g": gg, "steps": steps, "second": second or "", "start2": start2}
+
+
+def hist_cases(rng, tier):
+    big = tier == "thorough"
+    out = []
+    kinds = ["choice", "choice", "nullable", "chain", "choice2", "keep", "chainnode", "single"]
+    n = 900 if big else 110
+    for i in range(n):
+        g = gen_grammar(rng, {"kind": kinds[i % len(kinds)]})
+        r = rng.random()
+        second = None
+        if r < 0.12:
+            second = "copy"
+        elif r < 0.2:
+            second = "tmpl"
+        elif r < 0.32:
+            second = "keep"
+        h = make_history(rng, g, second)
+        if h:
+            out.append(h)
+    return out
 
 
 def kind(case):
     if case["k"] == "prods":
         return "prods:" + case["spec"]["t"]
+    if case["k"] == "hist":
+        return f"hist:{case.get('second') or 'one'}:{case['g'].get('kind')}"
     return f"{case['expect']}:{case['g'].get('top')}:{case['g'].get('kind')}"
 
 
@@ -755,6 +910,8 @@ def impl_run(case):
             t.complete_init(case["n"], {"A", "B", "C", "[", "]", ",", "{", "}", ":"}, None)
             return _gen_prods(t)
         return {"r": _guard(mk)}
+    if case["k"] == "hist":
+        return impl_hist(case, llparser)
     g = case["g"]
     out = {}
 
@@ -788,6 +945,103 @@ def impl_run(case):
             out["raw2"] = _guard(lambda: raw_obs(r2[1][0].parse(text, do_cleanup=False)))
         else:
             out["raw2"] = r2
+    return out
+
+
+def _mutable_ids(x, TElement, acc):
+    """ids of the mutable objects (tree elements, lists, dicts) a result consists of"""
+    if isinstance(x, TElement):
+        acc.add(id(x))
+        _mutable_ids(x.value, TElement, acc)
+    elif isinstance(x, list):
+        acc.add(id(x))
+        for e in x:
+            _mutable_ids(e, TElement, acc)
+    elif isinstance(x, dict):
+        acc.add(id(x))
+        for k, v in x.items():
+            _mutable_ids(k, TElement, acc)
+            _mutable_ids(v, TElement, acc)
+    return acc
+
+
+def impl_hist(case, llparser):
+    """one parser object (two after a ctor2 step), the calls of case["steps"] one after another.  Per call:
+    r = what the call gave on the used parser object, f = what the same call gives on a parser object made for it alone,
+    raw = parse(text, do_cleanup=False, start_symbol_name=..) of yet another new parser object (the model's input)"""
+    g = case["g"]
+    TE = llparser.TElement
+
+    def ctor(start, keep=None, prods=None):
+        if prods is None:
+            prods, _ = build_productions(g, llparser, False)
+        if keep is None:
+            keep = set(g["keep"]) if g["keep"] else None
+        return llparser.LLParser(TOKENIZER, synonyms=SYNONYMS, span_matchers=SPAN, skip_tokens=set(SKIP), productions=prods,
+                                 start_symbol_name=start, keep_symbols=keep, smart_factorization=g["smart"])
+
+    def call(p, st):
+        kw = {}
+        if st["start"] is not None:
+            kw["start_symbol_name"] = st["start"]
+        if st["clean"] is True:
+            x = p.parse(st["text"], **kw)
+        else:
+            x = p.parse(st["text"], do_cleanup=False, **kw)
+            if st["clean"] == "two":
+                p.cleanup(x)
+        return x
+
+    def show(st, x):
+        return raw_obs(x) if st["clean"] is False else clean_obs(x, TE)
+
+    shared_keep = set(g["keep"])          # the caller's set object (given to both parsers when how == "keep")
+    keep_before = sorted(shared_keep)
+    prods0, tm0 = build_productions(g, llparser, False)
+    r = _guard(lambda: ctor(g["start"], keep=shared_keep if case.get("second") == "keep" else None, prods=prods0))
+    if r[0] == "err":
+        return {"ctor": r}
+    parsers = {0: r[1]}
+    starts = {0: g["start"]}
+    out = {"ctor": ["ok"], "steps": []}
+    out["prods"] = [pr for name, sp in g["prods"] if name in tm0 for pr in _gen_prods(tm0[name])]
+    held = []          # (step index, result object, its picture right after the call)
+    for i, st in enumerate(case["steps"]):
+        if st["op"] == "ctor2":
+            if st["how"] == "tmpl":
+                r2 = _guard(lambda: ctor(st["start"], prods=prods0))
+            else:
+                r2 = _guard(lambda: ctor(st["start"], keep=shared_keep if st["how"] == "keep" else None))
+            if r2[0] == "ok":
+                parsers[1] = r2[1]
+                starts[1] = st["start"]
+            out["steps"].append({"ctor2": [r2[0]] if r2[0] == "ok" else r2})
+            continue
+        p = parsers.get(st["p"])
+        if p is None:
+            out["steps"].append({"skip": 1})
+            continue
+        o = {}
+        try:
+            x = call(p, st)
+            o["r"] = ["ok", show(st, x)]
+            held.append((i, x, o["r"][1]))
+        except BaseException as e:  # noqa
+            if type(e).__name__ == "Hang":
+                raise
+            o["r"] = ["err", SX.exc_name(e)]
+        s0 = starts[st["p"]]
+        o["f"] = _guard(lambda: show(st, call(ctor(s0), st)))
+        if st["clean"] is not False:
+            kw = {"start_symbol_name": st["start"]} if st["start"] is not None else {}
+            o["raw"] = _guard(lambda: raw_obs(ctor(s0).parse(st["text"], do_cleanup=False, **kw)))
+        out["steps"].append(o)
+    # results are separate objects and stay what they were
+    ids = [(i, _mutable_ids(x, TE, set())) for i, x, _ in held]
+    out["alias"] = [[i, j] for a, (i, si) in enumerate(ids) for (j, sj) in ids[a + 1:] if si & sj][:5]
+    out["mut"] = [i for i, x, pic in held
+                  if (raw_obs(x) if case["steps"][i]["clean"] is False else clean_obs(x, TE)) != pic][:5]
+    out["keepset"] = [keep_before, sorted(shared_keep)]
     return out
 
 
@@ -847,12 +1101,27 @@ def coq_case(case, obs):
         return f"CProds {csym(case['n'])} {cspec(case['spec'])}"
     g = case["g"]
     gs = SX.clist(f"({csym(n)}, {cspec(sp)})" for n, sp in g["prods"])
+    if case["k"] == "hist":
+        raws = {0: [], 1: []}
+        for st, o in model_calls(case, obs):
+            raws[st["p"]].append(crt(o["raw"][1]))
+        rl = {k: (SX.clist(v) if v else "(@nil rt)") for k, v in raws.items()}
+        return f"CHist {gs} {csyms(g['keep'])} {csym(g['start'])} {rl[0]} {csym(case.get('start2') or g['start'])} {rl[1]}"
     raw = obs.get("raw", ["err"])
     raw2 = obs.get("raw2")
     craw = f"(Some {crt(raw[1])})" if raw[0] == "ok" else "None"
     ren = {n + "xELEMENT": n + obs.get("sfx_element", "__ELEMENT") for n, sp in g["prods"] if sp["t"] == "seq"}
     craw2 = f"(Some {crt(raw2[1], ren)})" if raw2 and raw2[0] == "ok" else "None"
     return f"CParse {gs} {csyms(g['keep'])} {csym(g['start'])} {craw} {craw2}"
+
+
+def model_calls(case, obs):
+    """the calls of a history the model is asked about: calls with cleanup whose raw tree (of a parser object made for
+    that call alone) exists"""
+    if obs.get("ctor", ["err"])[0] != "ok":
+        return []
+    return [(st, o) for st, o in zip(case["steps"], obs["steps"])
+            if st["op"] == "parse" and "raw" in o and o["raw"][0] == "ok"]
 
 
 def in_model(case, obs):
@@ -917,6 +1186,12 @@ def expected_full(case, obs):
         return SX.err(r[1]) if r[0] == "err" else [0, sx_prods(r[1])]
     if obs["ctor"][0] == "err":
         return SX.err(obs["ctor"][1])
+    if case["k"] == "hist":
+        calls = {0: [], 1: []}
+        for st, o in model_calls(case, obs):
+            r = o["r"]
+            calls[st["p"]].append([SX.ok(sx_clean(r[1])) if r[0] == "ok" else SX.err(r[1]), 1])
+        return [0, sx_prods(obs["prods"])] + calls[0] + calls[1]
     raw, clean, raw2 = obs["raw"], obs["clean"], obs.get("raw2")
     if raw[0] != "ok":
         cl, fl = [], []
@@ -1068,6 +1343,8 @@ def oracle(case, obs):
         return []
     if obs["ctor"][0] == "err":
         return [("ctor-error", f"the LLParser constructor raised {obs['ctor'][1]} for a grammar of the family")]
+    if case["k"] == "hist":
+        return oracle_hist(case, obs)
     clean, raw = obs["clean"], obs["raw"]
     if case["expect"] == "reject":
         if clean[0] == "ok" or raw[0] == "ok":
@@ -1087,6 +1364,72 @@ def oracle(case, obs):
     return o.fails[:1]
 
 
+def _describe(st):
+    if st["op"] == "ctor2":
+        return {"keep": "LLParser(.., keep_symbols=<the same set object>", "copy": "LLParser(.., keep_symbols=<an equal set>",
+                "tmpl": "LLParser(productions=<the same template objects>"}[st["how"]] + f", start_symbol_name={st['start']!r})"
+    a = [repr(st["text"][:40])]
+    if st["start"] is not None:
+        a.append(f"start_symbol_name={st['start']!r}")
+    if st["clean"] is not True:
+        a.append("do_cleanup=False")
+    return f"p{st['p']}.parse({', '.join(a)})" + ("+cleanup()" if st["clean"] == "two" else "")
+
+
+def oracle_hist(case, obs):
+    """every call of a history gives what the property says of that call alone"""
+    g = case["g"]
+    steps = case["steps"]
+    fails = []
+    shared = False          # a second parser object was given the same keep_symbols set object
+    for i, (st, o) in enumerate(zip(steps, obs["steps"])):
+        if st["op"] == "ctor2":
+            r2 = o["ctor2"]
+            if st["how"] == "keep" and r2[0] == "ok":
+                shared = True
+            if st["how"] != "tmpl" and r2[0] != "ok" and r2[1] not in ("GrammarError",):
+                fails.append(("ctor-error", f"step {i}: a second parser of the same grammar with start symbol {st['start']} raised {r2[1]}"))
+            continue
+        if "skip" in o:
+            continue
+        r, f = o["r"], o["f"]
+        before = "; ".join(_describe(x) for x in steps[:i])
+        here = f"step {i} {_describe(st)}"
+        if st["expect"] == "reject":
+            if r[0] == "ok":
+                fails.append(("final-delim-accepted", f"{here}: text with a final delimiter that is not allowed was accepted"))
+            elif r[1] != "ParsingError":
+                fails.append(("reject-wrong-error", f"{here}: forbidden final delimiter raised {r[1]}, not ParsingError"))
+            continue
+        if r != f:
+            sig = "keep-set-aliased" if shared else "history-dependent"
+            fails.append((sig, f"{here} gives {str(r)[:160]} but a parser object made for this call alone gives {str(f)[:160]}; "
+                               f"calls before: {before}"))
+        if st["expect"] == "ok" and r[0] == "err":
+            fails.append(("parse-error" if st["clean"] is False else "cleanup-raises" if o.get("raw", ["err"])[0] == "ok" else "parse-error",
+                          f"{here}: valid text raised {r[1]}; calls before: {before}"))
+            continue
+        if r[0] == "ok" and st["clean"] is not False and st["d"] is not None:
+            # explicit start symbols are a debugging aid: whether the text is accepted from that symbol is not the
+            # property's business (the FOLLOW sets are those of the constructor's start symbol), what an accepted call
+            # returns is
+            oc = _Oracle(g)
+            if st["p"] == 1:
+                oc.wrap_ok = True       # the start symbol of the second parser is a kept symbol there
+            oc.te(r[1], st["d"], "", False)
+            if oc.fails:
+                sig, msg = oc.fails[0]
+                fails.append((sig, f"{here}: {msg}; calls before: {before}"))
+    for i, j in obs.get("alias", []):
+        fails.append(("results-aliased", f"the results of step {i} {_describe(steps[i])} and step {j} {_describe(steps[j])} share a mutable object"))
+    for i in obs.get("mut", []):
+        fails.append(("earlier-result-mutated", f"the result of step {i} {_describe(steps[i])} was changed by a later call"))
+    ks = obs.get("keepset")
+    if ks and ks[0] != ks[1]:
+        fails.append(("keep-set-aliased", f"the keep_symbols set given to the constructor was changed from {ks[0]} to {ks[1]}"))
+    return fails[:1]
+
+
 def _size(d):
     if not isinstance(d, dict):
         return 0, 0
@@ -1100,6 +1443,11 @@ def _size(d):
 
 
 def nontrivial(case, obs):
+    if case["k"] == "hist":
+        # a history says something when at least two calls with cleanup returned containers on the same object
+        n = sum(1 for st, o in zip(case["steps"], obs.get("steps", []))
+                if st["op"] == "parse" and st["clean"] is not False and o.get("r", ["err"])[0] == "ok" and max(_size(st["d"])) >= 1)
+        return n >= 2
     if case["k"] != "parse" or case["expect"] != "ok":
         return False
     depth, width = _size(case["d"])
@@ -1113,12 +1461,25 @@ def outcome(case, obs):
         return "prods:" + (obs["r"][0] if obs["r"][0] == "ok" else obs["r"][1])
     if obs["ctor"][0] == "err":
         return "ctor:" + obs["ctor"][1]
+    if case["k"] == "hist":
+        n_ok = sum(1 for o in obs["steps"] if o.get("r", ["err"])[0] == "ok")
+        n_err = sum(1 for o in obs["steps"] if o.get("r", ["ok"])[0] == "err")
+        return f"hist:{'all-ok' if not n_err else 'some-calls-raise'}"
     c = obs["clean"]
     return case["expect"] + ":" + (c[0] if c[0] == "ok" else c[1])
 
 
 def shrink_candidates(case):
     """smaller data for the same grammar is not derivable without the generator: only the layout is simplified"""
+    if case["k"] == "hist":
+        # drop one call at a time (never the last one)
+        for i in range(len(case["steps"]) - 1):
+            c = dict(case)
+            c["steps"] = case["steps"][:i] + case["steps"][i + 1:]
+            if not any(st["op"] == "ctor2" for st in c["steps"]):
+                c["steps"] = [st for st in c["steps"] if st.get("p", 0) == 0]
+            yield c
+        return
     if case["k"] != "parse":
         return
     t = case["text"]
